@@ -388,14 +388,19 @@ def finish(pid, tier, seed, mod, merged, problems, t0, nshards):
             reasons.append("finalize failed: " + repr(e))
 
     os.makedirs(os.path.join(HOME, "replays"), exist_ok=True)
-    replay_paths = []
-    for v in real[:10]:
+    replay_paths, shown, per_mech = [], [], {}
+    for v in real:
+        m = v.get("mechanism")
+        if per_mech.get(m, 0) >= 3 or len(replay_paths) >= 30:
+            continue
+        per_mech[m] = per_mech.get(m, 0) + 1
         blob = json.dumps(dict(property=pid, tier=tier, **v), sort_keys=True, ensure_ascii=True)
         name = f"{pid}-{hashlib.sha256(blob.encode()).hexdigest()[:12]}.json"
         path = os.path.join(HOME, "replays", name)
         with open(path, "w") as f:
             f.write(blob)
         replay_paths.append(path)
+        shown.append(v)
 
     nviol = max(n_real, len(real))
     coverage = dict(
@@ -436,9 +441,12 @@ def finish(pid, tier, seed, mod, merged, problems, t0, nshards):
         f"violations={nviol} known={n_known} wall={ev['wall_s']}s"
     )
     if real:
-        for v, path in zip(real, replay_paths):
+        for k, cnt in sorted(mech_counts.items()):
+            if k not in open_keys:
+                print(f"  mechanism {k}: {cnt} violation(s)")
+        for v, path in list(zip(shown, replay_paths))[:8]:
             w = json.dumps(v["witness"], ensure_ascii=True)
-            print(f"  violation kind={v['kind']} mechanism={v.get('mechanism')} witness={w[:600]}")
+            print(f"  violation kind={v['kind']} mechanism={v.get('mechanism')} witness={w[:360]}")
         for path in replay_paths:
             print(f"VIOLATION property={pid} replay={path}")
         return 1
